@@ -133,8 +133,12 @@ pub fn plan(r: &mut Rng, sid: usize) -> Value {
         let distinct: Vec<Value> = (0..12).map(|i| { let ns = instant(r); let tz = zs[i % zs.len()];
             match i % 4 { 0 => json!({"op": "CZ.offset", "args": {"ns": ns, "tz": tz}}), 1 => json!({"op": "CZ.get", "args": {"ns": ns, "tz": tz, "f": "hour"}}),
                           _ => json!({"op": "CZ.get", "args": {"ns": ns, "tz": tz, "f": "offsetSeconds"}}) } }).collect();
-        let calls = if n > 8 { 80 } else { 160 };
-        let ph = Value::Array((0..n).map(|_| Value::Array((0..calls).map(|_| r.pick(&distinct[..]).clone()).collect())).collect());
+        let calls = if n > 8 { 40 } else { 80 };
+        // three pairs with different offsets, read in a tight loop, each thread starting at another pair
+        let pairs: Vec<Value> = ["America/New_York", "Asia/Kolkata", "Australia/Sydney"].iter().map(|tz| json!({"ns": instant(r), "tz": tz})).collect();
+        let ph = Value::Array((0..n).map(|t| { let mut v: Vec<Value> = (0..calls).map(|_| r.pick(&distinct[..]).clone()).collect();
+            for k in 0..4 { let mut it = pairs.clone(); it.rotate_left((t + k) % 3); v.insert((k * calls / 4).min(v.len()), json!({"op": "CZ.offsetLoop", "args": {"items": it, "reps": 300}})); }
+            Value::Array(v) }).collect());
         return json!({"n": n, "kind": "clean", "phases": [ph]});
     }
     let per = r.range(4, 10) as usize;
